@@ -759,8 +759,13 @@ Wit == [
 ]
 
 (* where a witness of the rule can be placed so that nothing else is wrong (feasible positions/bases) *)
+(* the function-context bases (fn # "plain") take the rules that are diagnosed at the end of the function or by a later pass *)
+FnRules == {"R_undefined_label", "R_dup_label", "R_case_outside_switch", "R_default_outside_switch", "R_dup_case", "R_dup_case_converted",
+            "R_case_nonconst", "R_dup_default", "R_break_outside", "R_continue_outside", "R_return_value_in_void", "R_return_novalue"}
+FnBenign == {FStmt("goto", "L1"), FStmt("label", "L2")}
 CtxApp(r, b, p) ==
-  CASE r \in {"R_case_outside_switch", "R_default_outside_switch"} -> ~InSwitch(b)
+  CASE FnOf(b) # "plain" /\ r \notin FnRules -> FALSE
+    [] r \in {"R_case_outside_switch", "R_default_outside_switch"} -> ~InSwitch(b)
     [] r \in {"R_dup_case", "R_case_nonconst"} -> InSwitch(b)
     [] r = "R_dup_default" -> HasDefault(b)
     [] r = "R_break_outside" -> ~(InLoop(b) \/ InSwitch(b))
@@ -897,7 +902,7 @@ Fill(p, f, c) == /\ Filled(prog) = {}
 Violate(r, p) == /\ "witness" \in Mode
                  /\ \E f \in Wit[r] : App(r, prog.base, p, f) /\ Fill(p, f, r)
 Benign(p)     == /\ "benign" \in Mode
-                 /\ \E f \in BenignFrags \cup BenignCtx(prog.base) :
+                 /\ \E f \in (IF FnOf(prog.base) = "plain" THEN BenignFrags ELSE FnBenign) \cup BenignCtx(prog.base) :
                        /\ ~Excluded(prog.base, p, f) /\ Typed(prog.base, p, f)
                        /\ (f.form = "sinit" /\ p = "file") => Ent(f.o).cst
                        /\ Fill(p, f, "valid")
@@ -1263,7 +1268,7 @@ Inv_Defs == /\ Valid(prog) <=> Violated(prog) = {}
 
 (* tables the harness needs (entities, types, bases): exported once *)
 Meta == [ents |-> [n \in EntNames |-> [decl |-> Ent(n).decl, txt |-> Ent(n).txt, loc |-> Ent(n).loc]],
-         ctype |-> CType, prelude |-> PreludeTypes, bases |-> BaseTab, ctlvar |-> CtlVar, locals |-> PreludeLocals,
+         ctype |-> CType, prelude |-> PreludeTypes, bases |-> BaseTab, ctlvar |-> CtlVar, locals |-> PreludeLocals, baselocals |-> [b \in AllBases |-> BaseLocals(b)],
          rules |-> RuleNames, unsup |-> UnsupNames,
          nwit |-> [r \in RuleNames \cup UnsupNames |-> Cardinality(Wit[r])]]
 ASSUME PrintT("VCASE " \o ToJson([meta |-> Meta]))
